@@ -5,6 +5,7 @@
 From stdpp Require Import relations.
 From PintV Require Import Model.UC Model.Eval Model.Registry Model.Groups Model.Systems.
 From PintV Require Import Proofs.UCProofs Proofs.RegistryProofs Proofs.GroupsProofs Proofs.SystemsProofs.
+From PintV Require Import Proofs.RootProofs Proofs.FactorProofs Proofs.RewriteProofs Proofs.BaseUnitsProofs.
 From PintV Require Import Gen.DefaultDefs Gen.DefaultReg.
 Open Scope string_scope.
 
@@ -94,7 +95,9 @@ Proof.
   intros SR HR HB k Hk. destruct (base_units_keys r s a f ex dest fu B exu HR HB k Hk) as [D|U]; [left|right; exact U].
   exact (declared_single s k SR D).
 Qed.
-(** [base_units_sound], dimensionality and value — PARTIAL.  Full statement: [dim b = dim u],
+(** [base_units_sound], dimensionality and value — the earlier PARTIAL form, kept; the full
+    statements are [C14_base_units_sound], [C14_base_units_idempotent] and
+    [C14_to_base_units_preserves_value] below.  Full statement: [dim b = dim u],
     [f·⟦b⟧ = ⟦u⟧] and [get_base_units s b = (1, b)].  Proved: the answer has the dimensionality of
     the ROOT units of the input, and its factor is the root factor times the registry's conversion
     factor from those root units to the answer; asking again returns the same units whenever the
@@ -115,6 +118,57 @@ Theorem C14_base_units_idempotent_partial r s a f ex dest fu B exu fb exb :
   root_of r dest = Ok (fb, B, exb) →
   ∃ f' ex', base_units_in r s dest = Ok (f', ex', dest).
 Proof. exact (base_units_idem_units r s a f ex dest fu B exu fb exb). Qed.
+(** [base_units_sound] — FULL.  Side conditions, all decidable and checked by computation on the registry and
+    systems regenerated from /repo ([C14_base_units_sound_nonvacuous]):
+      [reg_nz r]  every rational scale is non-zero            ([reg_nzb]),
+      [reg_ok r]  a base unit is registered under its own name, references are well-sorted ([reg_okb]),
+      [table_solves r s]  every replacement of the system has exactly the replaced root unit as its root
+                  units, i.e. it solves its rule              ([table_solvesb]; automatic for single-form rules:
+                  [C14_rule_single_solves_root]; false for the F11 tables, true for the repaired inversion),
+      [exact_unit r u F B]  the symbolic root factor [F] of [u] has integer exponents over rational scales —
+                  the "rational units" of C02; then the root factor is the rational [mprod (gscale r) F].
+    (1) units and dimensionality, for every input: the answer has exactly the root units of the input, and
+        the dimensionality of the input. *)
+Theorem C14_base_units_same_root_units_and_dim r s a f ex dest :
+  reg_ok r → table_solves r s → base_units_in r s a = Ok (f, ex, dest) →
+  ∃ fu B exu Fa Fd,
+    root_of r a = Ok (fu, B, exu) ∧ dest = substitute (s_base s) B
+    ∧ rsem r a = Some (Fa, B) ∧ rsem r dest = Some (Fd, B)
+    ∧ ∀ d, nodim a → dim_of r a = Ok d → dim_of r dest = Ok d.
+Proof. exact (base_units_root_units r s a f ex dest). Qed.
+(** (2) value: the factor is the ratio of the root factors, [f · ⟦dest⟧ = ⟦a⟧] *)
+Theorem C14_base_units_sound r s a f ex dest Fa B Fd B' :
+  reg_nz r → reg_ok r → table_solves r s →
+  base_units_in r s a = Ok (f, ex, dest) →
+  exact_unit r a Fa B → exact_unit r dest Fd B' →
+  B' = B ∧ f = Some (mprod (gscale r) Fa / mprod (gscale r) Fd)%Qc
+  ∧ (mprod (gscale r) Fa / mprod (gscale r) Fd * mprod (gscale r) Fd = mprod (gscale r) Fa)%Qc.
+Proof. exact (base_units_value r s a f ex dest Fa B Fd B'). Qed.
+(** (3) idempotent — FULL: the answer is a fixed point, with factor exactly 1 *)
+Theorem C14_base_units_idempotent r s a f ex dest Fd B' :
+  reg_nz r → reg_ok r → table_solves r s →
+  base_units_in r s a = Ok (f, ex, dest) → exact_unit r dest Fd B' →
+  ∃ ex', base_units_in r s dest = Ok (Some 1%Qc, ex', dest).
+Proof. exact (base_units_idempotent r s a f ex dest Fd B'). Qed.
+(** (4) [Quantity.to_base_units] multiplies the magnitude by the conversion factor input → answer; the
+    physical value [m · ⟦a⟧] is preserved under any system *)
+Theorem C14_to_base_units_preserves_value r s a f ex dest Fa B Fd B' c e :
+  reg_nz r → UC.wf a →
+  base_units_in r s a = Ok (f, ex, dest) →
+  exact_unit r a Fa B → exact_unit r dest Fd B' →
+  conv_factor r a dest = Ok (Some c, e) →
+  ∀ m : Qc, (m * c * mprod (gscale r) Fd = m * mprod (gscale r) Fa)%Qc.
+Proof. exact (to_base_units_value r s a f ex dest Fa B Fd B' c e). Qed.
+Theorem C14_table_solves_decidable r s : table_solvesb r s = true → table_solves r s.
+Proof. exact (table_solvesb_spec r s). Qed.
+Theorem C14_rule_single_solves_root qk r new o rep :
+  rule_entry qk r new None = Ok (o, rep) → ∃ Fr, rsem r rep = Some (Fr, {[ o := 1%Qc ]}).
+Proof. exact (rule_single_solves_rsem qk r new o rep). Qed.
+(** the side conditions hold for the bundled registry and EVERY bundled system (SI, mks, cgs, atomic,
+    Planck, imperial, US), and the per-unit hypotheses for foot under cgs (762/25 centimeter) *)
+Example C14_base_units_sound_nonvacuous : (default_side_ok && default_foot_cgs_ok) = true.
+Proof. vm_cast_no_check (eq_refl true). Qed.
+
 (** the replacement table solves the rule equations: for the single form [new], the replaced root
     unit is [new] to the inverse power; for [new : old] with the corrected exponents, substituting
     the root expansion of [new] into the replacement of [old] gives [old] back *)
